@@ -32,6 +32,7 @@ func Cfg(key, val string)
 func Param(name string, def int) int
 func Unix(sec int64, loc *time.Location) time.Time
 func Symbolic() bool
+func SplitCSV(b []byte) [][]string
 
 // Sink is a hash.Hash that records the bytes it is fed.
 type Sink struct{ B []byte }
